@@ -26,7 +26,7 @@ P = {
    text="NotInAudience is stored exactly on generic outer iterations whose inner loop over that restriction's Audiences is exhausted without an exact == match, never with zero restrictions; OneTimeUse and ProxyRestriction mirror presence, Count and the audience list in order.",
    note="String equality semantics are Go's; nothing else assumed beyond the trusted base. " + TB, ref="DESIGN.md §3 C06"),
  "C07": dict(tech="value-flow and event-order analysis on SSA paths; truth tables for the certificate window",
-   text="Decrypted plaintext only re-enters the tree (parseResponse -> Root -> AddChild on the processed element); decryption precedes the verifying traversal over the same root; the EncryptedAssertion handler demands a direct child; every path to an RSA unwrap has the recipient-certificate guard on the decoded EncryptedKey struct; getDecryptCert validates the returned certificate's leaf with the closed window on the SP clock on every accepting path and returns a certificate built in that call (no memoised value).",
+   text="Decrypted plaintext only re-enters the tree (parseResponse -> Root -> AddChild on the processed element); decryption precedes the verifying traversal over the same root; the EncryptedAssertion handler demands a direct child and the whole-tree traversal runs before every successful return; every path to an RSA unwrap has the recipient-certificate guard on the decoded EncryptedKey struct; getDecryptCert validates the returned certificate's leaf with the closed window on the SP clock on every accepting path and returns a certificate built in that call (no memoised value).",
    note="Not decided: confidentiality / malleability of CBC, RSA mathematics. " + TB, ref="DESIGN.md §3 C07"),
  "C09": dict(tech="per-instruction panic obligations (bounds via linear path facts, nil-ness, preconditions) over the call-graph cone",
    text="For every module function reachable from the 6 inbound entry points and 3 decrypt routines, every index, slice, pointer dereference, interface call, map update, division, explicit panic and precondition-bearing std call is discharged on every path; every return of the entry points yields exactly one of (non-nil result, non-nil error).",
@@ -44,7 +44,7 @@ P = {
    text="Both metadata functions wire entity ID, endpoints, booleans and base64(StdEncoding) certificates from the named configuration sources; published signing/encryption keys equal the keys really used in all 12 valid configurations; ValidUntil = sp.Clock.Now().UTC().Add(d) with d a duration (hours must be multiplied by time.Hour), default 7 days.",
    note="Not decided: XML round trip of the descriptor (encoding/xml behaviour). " + TB, ref="DESIGN.md §3 C19"),
  "C08": dict(tech="struct-tag schema table, value-flow wiring of the summary, path-shape rules for the accessors, shared provenance/freshness rules",
-   text="STRUCTURAL PART ONLY: every field the property enumerates decodes from the SAML-schema element/attribute name, namespace and Go type; RetrieveAssertionInfo wires NameID, every attribute in order, the AuthnStatement fields and the whole assertion list from the validated response; Get/GetSize/GetAll have the first / count / all-in-order shape with empty results for nil map and absent key; decode targets are fresh and decoded from verified elements.",
+   text="STRUCTURAL PART ONLY: every field the property enumerates decodes from the SAML-schema element/attribute name, namespace and Go type; RetrieveAssertionInfo wires NameID, every attribute in order, the AuthnStatement fields and the whole assertion list from the validated response; Get/GetSize/GetAll have the first / count / all-in-order shape with empty results for nil map and absent key; decode targets are fresh and decoded from verified elements; decoded objects are never written afterwards; once the root signature verified no further verification narrows acceptance.",
    note="Explicitly NOT decided: that every conforming serialisation is accepted and that text survives comments / CDATA / character references / canonicalisation (behaviour of etree, encoding/xml, goxmldsig over unbounded inputs). The checked clauses are necessary conditions. " + TB, ref="DESIGN.md §3 C08"),
  "C13": dict(tech="expression-shape and sibling-agreement rules on SSA paths, lock-ordered event rules, who-may-call scans, decision-table agreement",
    text="STRUCTURAL PART ONLY: each Sign* puts ConstructSignature(el, enveloped=true) from sp.SigningContext() at child index 1 of a copy keeping every other child once and in order (Issuer is created first, unconditionally, by every builder); builders use only the escaping tree API (no CDATA / raw sinks); SigningContext applies algorithm and canonicalizer to the new context under the write lock and embeds the signer's own certificate; all signing goes through it; signer, reported certificate and both metadata signing descriptors pick the same key source in all 12 valid configurations.",
@@ -59,10 +59,10 @@ P = {
    text="The three POST bodies are produced solely by html/template Execute into the returned buffer from a compile-time-constant template with only plain string field actions inside quoted attribute values, one POST form with action={{.URL}}, the base64 document field and a RelayState input exactly on the non-empty path; fields are wired from the flow's endpoint, base64.StdEncoding(document) and relayState.",
    note="Not decided: html/template's escaper itself. " + TB, ref="DESIGN.md §3 C16"),
  "C17": dict(tech="write-effect scan over the call-graph cone of all public operations, path-sensitive lockset on SigningContext, copylocks-style scan",
-   text="After configuration the only provider state written by any public operation is sp.signingContext (and the context object), only inside SigningContext, loads under R/W and stores/mutations under W with every acquire released; no package-level mutable state; validators return fresh allocations; the provider is never copied by value.",
+   text="After configuration the only provider state written by any public operation is sp.signingContext (and the context object), only inside SigningContext, loads under R/W and stores/mutations under W with every acquire released; no package-level mutable state; validators return fresh allocations; the provider is never copied by value; no exported operation writes through a pointer-carrying argument (documents, elements, decoded messages) on any path.",
    note="Not decided: data races inside dependencies or user-supplied key/certificate stores; equality of concurrent and sequential results as an observed fact (implied for module code by the effect rules). " + TB, ref="DESIGN.md §3 C17"),
  "C18": dict(tech="value-flow rule for ID attributes, SSA rules on NewV4, exhaustive evaluation of the byte transforms over 256 inputs",
-   text="Every ID attribute is a constant NCName-start prefix + String() of a uuid.NewV4() called in the same builder activation; NewV4 fills all 16 bytes of a fresh array from crypto/rand with the error fatal; version/variant transforms are correct for all 256 byte values and no other byte is overwritten; String() is the 8-4-4-4-12 lower-case hex layout.",
+   text="Every ID attribute is a constant NCName-start prefix + String() of a uuid.NewV4() called in the same builder activation, held in attribute storage the element owns; NewV4 fills all 16 bytes of a fresh array from crypto/rand with the error fatal; version/variant transforms are correct for all 256 byte values and no other byte is overwritten; String() is the 8-4-4-4-12 lower-case hex layout.",
    note="Not decided: non-repetition (a probabilistic consequence of 122 random bits, not a code shape). " + TB, ref="DESIGN.md §3 C18"),
  "C20": dict(tech="sibling struct-tag comparison, decode-target type comparison, value-flow rules on the pre-decoders",
    text="STRUCTURAL PART ONLY: every field of UnverifiedBaseResponse has the identical xml tag and type in Response; the logout pre-decoder and full validation fill the same type; both pre-decoders decode the base64-decoded input via maybeDeflate with the 5 MiB default into an object allocated inside each attempt and return the successful attempt's object; no library code writes a header field (or a field of the Issuer object) after decoding; on the unsigned-root path the header is decoded before the tree is modified.",
